@@ -41,7 +41,10 @@ type env struct {
 	sent   func() []ref.Msg
 	get    func(ctx context.Context, path string) ([]byte, error)
 	ping   func(ctx context.Context) error
-	closef func()
+	// observeOnce registers an observation and cancels it again; writeCon sends a confirmable one-way POST
+	observeOnce func(ctx context.Context, path string) error
+	writeCon    func(ctx context.Context, path string) error
+	closef      func()
 
 	mu        sync.Mutex
 	processed map[uint64]int // sequence number -> times processed
@@ -54,6 +57,8 @@ type env struct {
 	peerMID atomic.Uint32
 	// pingFirst: handlers ping the peer before anything else
 	pingFirst atomic.Bool
+	// firstOp: "" | "observe" | "write-con": the handler's first blocking operation
+	firstOp atomic.Value
 }
 
 func newEnv(kind string, queue int) *env {
@@ -76,6 +81,22 @@ func newEnv(kind string, queue int) *env {
 			if err != nil {
 				e.mu.Lock()
 				e.nestErr = append(e.nestErr, fmt.Sprintf("%s: ping from inside the handler: %v", id, err))
+				e.mu.Unlock()
+			}
+		}
+		if op, _ := e.firstOp.Load().(string); op != "" && (strings.HasPrefix(id, "nest:") || strings.HasPrefix(id, "plain")) {
+			ctx, cancel := context.WithTimeout(context.Background(), 60*time.Second)
+			var err error
+			switch op {
+			case "observe":
+				err = e.observeOnce(ctx, "/obsnest/"+strings.ReplaceAll(id, ":", "-"))
+			case "write-con":
+				err = e.writeCon(ctx, "/wcon/"+strings.ReplaceAll(id, ":", "-"))
+			}
+			cancel()
+			if err != nil {
+				e.mu.Lock()
+				e.nestErr = append(e.nestErr, fmt.Sprintf("%s: %s from inside the handler: %v", id, op, err))
 				e.mu.Unlock()
 			}
 		}
@@ -145,6 +166,23 @@ func newEnv(kind string, queue int) *env {
 			return resp.ReadBody()
 		}
 		e.ping = func(ctx context.Context) error { return cc.Ping(ctx) }
+		e.observeOnce = func(ctx context.Context, path string) error {
+			o, err := cc.Observe(ctx, path, func(*pool.Message) {})
+			if err != nil {
+				return err
+			}
+			return o.Cancel(ctx)
+		}
+		e.writeCon = func(ctx context.Context, path string) error {
+			req := cc.AcquireMessage(ctx)
+			defer cc.ReleaseMessage(req)
+			tok, _ := message.GetToken()
+			if err := req.SetupPost(path, tok, message.TextPlain, bytes.NewReader([]byte("w"))); err != nil {
+				return err
+			}
+			req.SetType(message.Confirmable)
+			return cc.WriteMessage(req)
+		}
 		e.closef = func() { _ = cc.Close() }
 	case "tcp":
 		sc := sim.NewScriptConn()
@@ -178,6 +216,22 @@ func newEnv(kind string, queue int) *env {
 			return resp.ReadBody()
 		}
 		e.ping = func(ctx context.Context) error { return cc.Ping(ctx) }
+		e.observeOnce = func(ctx context.Context, path string) error {
+			o, err := cc.Observe(ctx, path, func(*pool.Message) {})
+			if err != nil {
+				return err
+			}
+			return o.Cancel(ctx)
+		}
+		e.writeCon = func(ctx context.Context, path string) error {
+			req := cc.AcquireMessage(ctx)
+			defer cc.ReleaseMessage(req)
+			tok, _ := message.GetToken()
+			if err := req.SetupPost(path, tok, message.TextPlain, bytes.NewReader([]byte("w"))); err != nil {
+				return err
+			}
+			return cc.WriteMessage(req)
+		}
 		e.closef = func() { _ = cc.Close() }
 	}
 	return e
@@ -228,6 +282,23 @@ func (p *peer) step() bool {
 			p.e.inject(ref.Msg{Code: 7<<5 | 3, Token: m.Token})
 		case p.e.kind == "udp" && m.Type == 0 && m.Code == 0: // empty confirmable = ping, answered with a reset
 			p.e.inject(ref.Msg{Type: 3, Code: 0, MID: m.MID})
+		case m.Code == 1 && strings.HasPrefix(pathOf(m), "/obsnest/"):
+			// observe registration (Observe=0: answered with an Observe option) / deregistration (Observe=1) of a handler
+			var opts []ref.Opt
+			if v, has := m.GetUint(6); has && v == 0 {
+				opts = []ref.Opt{{ID: 6, Val: ref.Uint(2)}}
+			}
+			p.answered.Add(1)
+			if p.e.kind == "udp" {
+				p.e.inject(ref.Msg{Type: 2, Code: 0x45, MID: m.MID, Token: m.Token, Opts: opts, Payload: []byte("o")})
+			} else {
+				p.e.inject(ref.Msg{Code: 0x45, Token: m.Token, Opts: opts, Payload: []byte("o")})
+			}
+		case m.Code == 2 && strings.HasPrefix(pathOf(m), "/wcon/"):
+			// one-way confirmable POST of a handler: acknowledged (datagram transport), nothing else
+			if p.e.kind == "udp" && m.Type == 0 {
+				p.e.inject(ref.Msg{Type: 2, Code: 0, MID: m.MID})
+			}
 		case m.Code == 1: // GET from the connection under test
 			path := pathOf(m)
 			var k int
@@ -299,6 +370,7 @@ type ccase struct {
 	OwnMID    bool   `json:"request_mid_equals_own_mid,omitempty"`
 	NonGets   bool   `json:"own_requests_non_confirmable,omitempty"`
 	PingFirst bool   `json:"handlers_ping_the_peer_first,omitempty"`
+	FirstOp   string `json:"handlers_first_blocking_operation,omitempty"`
 }
 
 // pureServer: handlers return at once, nothing else happens: exactly once, in arrival order.
@@ -363,6 +435,7 @@ func nested(rec *vr.Rec, c ccase, rnd *rand.Rand) {
 	defer e.closef()
 	e.nonGets.Store(c.NonGets)
 	e.pingFirst.Store(c.PingFirst)
+	e.firstOp.Store(c.FirstOp)
 	if c.OwnMID {
 		e.mid.Store(30000) // the first injected request gets MID 30001 = the connection's first own MID
 	}
@@ -509,7 +582,7 @@ func dupReplies(c ccase) int {
 }
 
 func TestRun(t *testing.T) {
-	rec := vr.New("C11", "workloads on real udp (in-memory session) and tcp (scripted net.Conn) connections with receive-queue sizes 0, 1, 16: pure-server (50..300 uniquely tagged requests plus inline pings/stray ACKs, handlers return at once; exactly-once and arrival order), nested (handler chains blocking in nested GETs to depth 1..4, 0..20 plain requests, 0..4 external callers issuing 5 requests each; with 0..3 duplicates of the waiting handler's own request injected while it waits, and with request MID == the connection's own first MID, and with the connection's own (nested) requests Non-confirmable, and with handlers that ping the peer as their first blocking operation); reader-loop hook points inject PRNG yields. Distinct = distinct workload tuples.")
+	rec := vr.New("C11", "workloads on real udp (in-memory session) and tcp (scripted net.Conn) connections with receive-queue sizes 0, 1, 16: pure-server (50..300 uniquely tagged requests plus inline pings/stray ACKs, handlers return at once; exactly-once and arrival order), nested (handler chains blocking in nested GETs to depth 1..4, 0..20 plain requests, 0..4 external callers issuing 5 requests each; with 0..3 duplicates of the waiting handler's own request injected while it waits, and with request MID == the connection's own first MID, and with the connection's own (nested) requests Non-confirmable, and with handlers whose first blocking operation is a ping, an observe registration + cancellation, or a confirmable one-way write); reader-loop hook points inject PRNG yields. Distinct = distinct workload tuples.")
 	defer rec.Flush(true)
 	seed := vr.Seed()
 	var hookHits atomic.Int64
@@ -545,6 +618,11 @@ func TestRun(t *testing.T) {
 				}
 				for rep := 0; rep < vr.Scale(2, 30); rep++ {
 					cases = append(cases, ccase{Workload: "nested", Kind: kind, Queue: q, Depth: depth, N: rnd.Intn(8), Clients: rnd.Intn(3), PingFirst: true})
+				}
+				for _, op := range []string{"observe", "write-con"} {
+					for rep := 0; rep < vr.Scale(1, 20); rep++ {
+						cases = append(cases, ccase{Workload: "nested", Kind: kind, Queue: q, Depth: depth, N: rnd.Intn(8), Clients: rnd.Intn(3), FirstOp: op})
+					}
 				}
 				if kind == "udp" {
 					for dups := 1; dups <= 3; dups++ {
